@@ -359,6 +359,11 @@ class Inliner:
                 res = self.inline_generator_loop(st, h, module, cls, depth, stack)
                 if res is not None:
                     return res
+        # list comprehension whose element needs a statement-bodied helper: write it as the loop it abbreviates
+        if isinstance(st, ast.Assign) and len(st.targets) == 1 and isinstance(st.targets[0], ast.Name) and isinstance(st.value, ast.ListComp):
+            res = self.desugar_listcomp(st, module, cls, stack)
+            if res is not None:
+                return self.expand_block(res, module, cls, depth, stack)
         # direct shapes
         call, shape = None, None
         if isinstance(st, ast.Expr) and isinstance(st.value, ast.Call):
@@ -377,6 +382,41 @@ class Inliner:
                     return res
         # helper calls nested in the statement's own expressions (not in nested blocks)
         return self.expand_nested_calls(st, module, cls, depth, stack)
+
+    def desugar_listcomp(self, st, module, cls, stack):
+        comp = st.value
+        if len(comp.generators) != 1 or comp.generators[0].is_async:
+            return None
+        gen = comp.generators[0]
+        tname = st.targets[0].id
+        if any(isinstance(n, ast.Name) and n.id == tname for n in ast.walk(comp)):
+            return None
+        needs = False
+        for n in [x for part in [comp.elt] + list(gen.ifs) for x in ast.walk(part)]:
+            if isinstance(n, ast.Call):
+                h = self.helper_for(n, module, cls)
+                if h is not None and qualname_of(h[0]) not in stack and not _contains(h[0].body, (ast.Yield, ast.YieldFrom)):
+                    b = self.bind(h[0], h[1], h[2], n)
+                    if b is not None and (_as_expression(self.instantiate(h[0], b[0])) is None or b[1]):
+                        needs = True
+        if not needs:
+            return None
+        mod = getattr(st, "_module", None)
+
+        def mk(node):
+            ast.copy_location(node, st)
+            ast.fix_missing_locations(node)
+            _set_module(node, mod)
+            return node
+
+        init = mk(ast.Assign(targets=[ast.Name(id=tname, ctx=ast.Store())], value=ast.List(elts=[], ctx=ast.Load())))
+        app = mk(ast.Expr(value=ast.Call(func=ast.Attribute(value=ast.Name(id=tname, ctx=ast.Load()), attr="append", ctx=ast.Load()), args=[comp.elt], keywords=[])))
+        body = [app]
+        for c in reversed(gen.ifs):
+            body = [mk(ast.If(test=c, body=body, orelse=[]))]
+        loop = mk(ast.For(target=gen.target, iter=gen.iter, body=body, orelse=[]))
+        self.inlined_calls.append(f"<listcomp> {tname} = [...] written as a loop")
+        return [init, loop]
 
     def inline_call(self, st, call, shape, h, module, cls, depth, stack):
         fn, recv, decos = h
